@@ -122,16 +122,25 @@ func front(main string, files map[string]string) (ast *parser.Thrift, err error)
 	return ast, nil
 }
 
-var cwdOnce sync.Once
+var (
+	cwdOnce  sync.Once
+	emptyDir string
+	homeDir  string
+)
 
-// emptyCwd: trim.TrimAST reads trim_config.yaml from the working directory.
-func emptyCwd() {
+// inEmptyCwd runs f with an empty working directory: trim.TrimAST reads
+// trim_config.yaml from the working directory.  The directory is restored
+// afterwards (the type checker's source importer needs the module directory).
+func inEmptyCwd(f func()) {
 	cwdOnce.Do(func() {
-		d, err := os.MkdirTemp("", "c16cwd")
-		if err == nil {
-			os.Chdir(d)
-		}
+		homeDir, _ = os.Getwd()
+		emptyDir, _ = os.MkdirTemp("", "c16cwd")
 	})
+	if emptyDir != "" && homeDir != "" {
+		os.Chdir(emptyDir)
+		defer os.Chdir(homeDir)
+	}
+	f()
 }
 
 func runTrim(ast *parser.Thrift, a trimArgs) (err error) {
@@ -140,13 +149,12 @@ func runTrim(ast *parser.Thrift, a trimArgs) (err error) {
 			err = fmt.Errorf("TrimAST panicked: %v", r)
 		}
 	}()
-	emptyCwd()
 	arg := &trim.TrimASTArg{Ast: ast, TrimMethods: append([]string(nil), a.Methods...), PreserveStructs: append([]string(nil), a.Preserved...)}
 	if a.Preserve != nil {
 		v := *a.Preserve
 		arg.Preserve = &v
 	}
-	_, err = trim.TrimAST(arg)
+	inEmptyCwd(func() { _, err = trim.TrimAST(arg) })
 	return err
 }
 
